@@ -244,6 +244,72 @@ def job_dtype(job, seed):
     return {'obligations': obs, 'candidates': cands, 'paths': len(paths)}
 
 
+ALT_UNIT = {'time': 'ms', 'length': 'mm', 'energy': 'ueV', 'wavelength': 'nm', 'invlength': '1/nm', 'abs_time': 'ms'}
+
+
+def job_int(job, seed):
+    """An integer operand in a non-default unit gives the same physical result as the same number as float64."""
+    si, which = job
+    from symex import core as C
+    from symsc import variable as V
+    from symsc.units import parse_unit
+    from .symutil import fresh_run
+
+    mod, fname, args, outunit, data = SPECS[si]
+    m = _load(mod)
+    fresh_run()
+    f = getattr(m, fname)
+    obs, cands = [], []
+    tag = f'{fname}[int64 {which} in {ALT_UNIT[args[which]]}]'
+    case = {'kind': 'int', 'spec': si, 'fname': fname, 'which': which}
+    n = C.sym_var('n_int', sign='+', is_int=True)
+    C.CTX.assume(n >= 1)
+    C.CTX.assume(n <= 10**6)
+
+    def build(dt):
+        kw = {}
+        for a, k in args.items():
+            if a == which:
+                kw[a] = V.Variable(dims=(), values=n, unit=parse_unit(ALT_UNIT[k]), dtype=dt)
+            else:
+                kw[a] = _mk(a, k, None, 'float64', False)
+                fx = FIXED_UNIT.get((fname, a))
+                if fx is not None:
+                    from symsc.api import to_unit
+                    kw[a] = to_unit(kw[a], fx)
+        return kw
+
+    C.CTX.fork_timeout_ms = 3000
+    pi_ = C.explore(lambda: f(**build('int64')))
+    pf_ = C.explore(lambda: f(**build('float64')))
+    oki = [p for p in pi_ if p.exc is None and not p.inconclusive]
+    okf = [p for p in pf_ if p.exc is None and not p.inconclusive]
+    if not okf or not oki:
+        # integer operands are legitimately refused by some kernels (DTypeError): then nothing to compare
+        refused = all(p.exc is not None and type(p.exc).__name__ in ('DTypeError', 'UnitError') for p in pi_)
+        st = 'discharged' if (refused and okf) else 'inconclusive'
+        obs.append({'name': f'{tag}:integer operand refused or comparable', 'status': st, 'detail': '; '.join(str(p.inconclusive or repr(p.exc))[:80] for p in (pi_ + pf_)[:2]), 't': 0})
+        return {'obligations': obs, 'candidates': cands, 'paths': len(pi_) + len(pf_)}
+    for a in oki:
+        va, ua, da = _phys(a.value)
+        for b in okf:
+            if (len(oki) > 1 or len(okf) > 1) and C.reachable(pc=[*a.pc, *b.pc]) == 'unsat':
+                continue
+            vb, ub, db = _phys(b.value)
+            for k in va:
+                for i, (x, y) in enumerate(zip(va[k], vb[k], strict=True)):
+                    goal = C.B.const(x.special == y.special) if (x.special or y.special) else (x == y)
+                    ob = C.prove(f'{tag}:{k}[{i}]:same physical result as the float64 operand', goal, pc=[*a.pc, *b.pc], timeout_ms=30000)
+                    obs.append(ob_dict(ob))
+                    if ob.status == 'violated':
+                        c = dict(case)
+                        c['n'] = int((ob.model or {}).get('n_int', 3))
+                        cands.append((f'C07:{fname}:integer-operand', c, 'integer operand handled differently from the same float value'))
+                ob = C.prove(f'{tag}:{k}:result is floating point', C.B.const(da[k] in ('float64', 'float32')))
+                obs.append(ob_dict(ob))
+    return {'obligations': obs, 'candidates': cands, 'paths': len(pi_) + len(pf_)}
+
+
 def run(chk):
     from symex import loader
 
@@ -278,6 +344,9 @@ def run(chk):
                 djobs.append((si, combo))
     run_jobs(chk, job_equiv, ejobs)
     run_jobs(chk, job_dtype, djobs)
+    ijobs = [(si, a) for si, (mod, fname, args, outunit, data) in enumerate(SPECS) if data is not None and fname not in EQUIV_ELSEWHERE
+             for a in args if args[a] in ALT_UNIT and (a in data or chk.tier == 'thorough')]
+    run_jobs(chk, job_int, ijobs)
     chk.bounds = {'units': 'one symbolic positive scale factor per argument (covers every unit of the right dimension, not only the ns..s / mm..km grid); deg vs rad for angles',
                   'dtypes': 'float64/float32/int64 grid for the kernels that select a precision themselves', 'shapes': 'scalar operands'}
     chk.stubs = ['scipp -> symsc (unit algebra with symbolic scale monomials, to_unit, dtype promotion rules measured on scipp 25.4)']
@@ -296,6 +365,31 @@ def replay_real(case):
 
     m = importlib.import_module('scippneutron.' + mod)
     f = getattr(m, fname)
+    if case.get('kind') == 'int':
+        which = case['which']
+        bad = []
+        base = {'time': 5.0, 'length': 20.0, 'energy': 2.0e-21, 'wavelength': 2e-10, 'invlength': 2e10, 'angle': 1.0, 'abs_time': 0.01}
+        for nval in sorted({3, 7, 15, 25, max(1, int(case.get('n', 3)))}):
+            def call(dt):
+                kw = {}
+                for a, k in args.items():
+                    if a == which:
+                        kw[a] = sc.scalar(nval, unit=ALT_UNIT[k], dtype=dt)
+                    else:
+                        u = FIXED_UNIT.get((fname, a), BASE[k])
+                        kw[a] = sc.scalar(base[k], unit=BASE[k]).to(unit=u)
+                return f(**kw)
+            try:
+                a_, b_ = call('int64'), call('float64')
+            except Exception as e:  # noqa: BLE001
+                continue
+            ra = a_.items() if isinstance(a_, dict) else [('', a_)]
+            rb = dict(b_.items()) if isinstance(b_, dict) else {'': b_}
+            for k, va in ra:
+                x, y = float(va.value), float(rb[k].to(unit=va.unit).value)
+                if not (x == y or abs(x - y) <= 1e-10 * abs(y)):
+                    bad.append(f'{fname}({which}={nval} {ALT_UNIT[args[which]]}): int64 gives {x!r}, float64 gives {y!r}')
+        return {'reproduced': bool(bad), 'detail': '; '.join(bad[:2])}
     rng = np.random.default_rng(3)
     dts = case['dtypes']
     alts = {'time': ['s', 'ms', 'us', 'ns'], 'length': ['m', 'mm', 'km'], 'energy': ['J', 'meV', 'eV', 'ueV'], 'wavelength': ['m', 'angstrom', 'nm'],
